@@ -566,8 +566,16 @@ pub fn run_sizes(ctx: &mut Ctx) -> R {
     cfg.seek = *ch.pick("sz.seek", &[SeekPolicy::Off, SeekPolicy::Frames(1)]);
     // mode 0: the size is the stream's block size; mode 1: it is the length of the final frame of a
     // stream with a larger block size
-    let mode = ch.draw("sz.mode", 2);
-    let frames = if mode == 0 {
+    let mode = ch.draw("sz.mode", 5) % 3;
+    let frames = if mode == 2 {
+        // many short frames: the coded frame number crosses its 1/2/3/4-byte boundaries
+        cfg.block = 16;
+        cfg.channels = 1;
+        cfg.bps = 8;
+        cfg.seek = SeekPolicy::Off;
+        probe("sizes_frame_number_crosses_utf8_length_boundary");
+        16 * *ch.pick("sz.many", &[130usize, 2050, 130, 2050, 65540]) + ch.draw("sz.many.rem", 16) as usize
+    } else if mode == 0 {
         cfg.block = size;
         let full = 1 + ch.draw("sz.full", 2) as usize;
         full * size as usize + *ch.pick("sz.rem", &[0usize, 1, 15, 16]) % size as usize
